@@ -10,7 +10,12 @@ from pyvc.core import Obj, PList, to_real
 
 SER = "pacti.terms.polyhedra.serializer"
 NAMES = ["x", "y"]
-RTOL, ATOL = to_real(1e-5), to_real(1e-8)  # the exact rationals denoted by the float tolerances in the source
+# "Equal up to printing", taken from the property (four significant digits), not from the tolerances in the source: two numbers
+# MAY be treated as equal only if they differ by at most 1e-4 of the larger magnitude, and MUST be if they differ by at most 1e-6
+# of it.  No absolute slack: an absolute tolerance (the source had 1e-8) makes numbers below it equal to zero and to each
+# other, which the four printed digits do not license (coefficients dropped, `|x| = 0` emitted for x <= 6e-9, -x <= 6e-9: a
+# string the grammar does not accept).  The source's relative 1e-5 lies between the two.
+MAY, MUST = to_real(1e-4), to_real(1e-6)
 
 
 def _b(r):
@@ -21,16 +26,25 @@ def _abs(e):
     return z3.If(e >= 0, e, -e)
 
 
+def _mx(a, b):
+    return z3.If(_abs(a) >= _abs(b), _abs(a), _abs(b))
+
+
 def approx(a, b):
-    """np.isclose(a, b, rtol=1e-5, atol=1e-8)"""
-    return _abs(a - b) <= ATOL + RTOL * _abs(b)
+    """may be treated as equal"""
+    return _abs(a - b) <= MAY * _mx(a, b)
 
 
-def opposite_spec(s, a, b):
+def surely(a, b):
+    """must be treated as equal"""
+    return _abs(a - b) <= MUST * _mx(a, b)
+
+
+def opposite_spec(s, a, b, rel=approx):
     ca, cb = s.coefs(a), s.coefs(b)
     if set(ca) != set(cb):
         return z3.BoolVal(False)
-    return z3.And(*[approx(-ca[n], cb[n]) for n in ca]) if ca else z3.BoolVal(True)
+    return z3.And(*[rel(-ca[n], cb[n]) for n in ca]) if ca else z3.BoolVal(True)
 
 
 @contract("serializer._are_polyhedral_terms_opposite", ["C10"], [SER + ":_are_polyhedral_terms_opposite", SER + ":_are_numbers_approximatively_equal"], "S", bound="two terms over {x,y}, every support", assumes=["A5"])
@@ -40,8 +54,9 @@ def c_opposite(h):
     out = h.call(h.I.get_func(SER + ":_are_polyhedral_terms_opposite"), [a, b])
     h.check("C14.no_exception", out.kind == "return", "raised %s at %s" % (out.exc_name, out.where))
     if out.kind == "return":
-        # opposite terms: same set of variables, coefficients approximately negated
-        h.ensure("C10.opposite.iff_same_variables_and_negated_coefficients", _b(out.value) == opposite_spec(s, a, b))
+        # opposite terms: same set of variables, coefficients negated up to printing
+        h.ensure("C10.opposite.only_if_same_variables_and_negated_coefficients", z3.Implies(_b(out.value), opposite_spec(s, a, b)))
+        h.ensure("C10.opposite.if_same_variables_and_negated_coefficients", z3.Implies(opposite_spec(s, a, b, surely), _b(out.value)))
     h.frame_ok(out, "C13.frame")
 
 
